@@ -8,6 +8,7 @@ from dataclasses import dataclass, field
 from sigma.conditions import ConditionAND, ConditionOR
 from sigma.correlations import SigmaCorrelationCondition, SigmaCorrelationRule
 from sigma.rule import SigmaRule, SigmaDetection, SigmaDetectionItem
+from sigma.modifiers import SigmaListModifier
 from sigma.exceptions import (
     SigmaConfigurationError,
     SigmaTransformationError,
@@ -403,7 +404,15 @@ class ValueTransformation(DetectionItemTransformation):
                         # Unlike FieldMappingTransformation (which may add wildcards to values
                         # making round-tripping incorrect), ValueTransformation operates on the
                         # values directly and the new values serve as the serializable original.
-                        r.original_value = r.value.copy()
+                        # This is only possible if no value modifier has to be applied again to
+                        # the serialized values while loading them (e.g. contains would add
+                        # wildcards to the new values).
+                        if all(
+                            issubclass(modifier, SigmaListModifier) for modifier in r.modifiers
+                        ) and not any(isinstance(value, SigmaExpansion) for value in r.value):
+                            r.original_value = r.value.copy()
+                        else:
+                            r.disable_conversion_to_plain()
                     detection.detection_items[i] = r
                     self.processing_item_applied(r)
 
